@@ -210,8 +210,8 @@ theorem ite_core {c : Prop} [Decidable c] {a b : IR} {x : Core}
 /-! the table-writing steps still leave symbols and blocks alone -/
 @[simp] theorem splitTables_syms (ir : IR) (b nb off : Nat) : (ir.splitTables b nb off).syms = ir.syms := rfl
 @[simp] theorem splitTables_blocks (ir : IR) (b nb off : Nat) : (ir.splitTables b nb off).blocks = ir.blocks := rfl
-@[simp] theorem joinTables_syms (ir : IR) (b1 : Block) (id2 : Nat) : (ir.joinTables b1 id2).syms = ir.syms := rfl
-@[simp] theorem joinTables_blocks (ir : IR) (b1 : Block) (id2 : Nat) : (ir.joinTables b1 id2).blocks = ir.blocks := rfl
+@[simp] theorem joinTables_syms (ir : IR) (b1 : Block) (id2 : Nat) (c : Bool) : (ir.joinTables b1 id2 c).syms = ir.syms := rfl
+@[simp] theorem joinTables_blocks (ir : IR) (b1 : Block) (id2 : Nat) (c : Bool) : (ir.joinTables b1 id2 c).blocks = ir.blocks := rfl
 @[simp] theorem removeAuxEntries_syms (ir : IR) (blk : Block) : (ir.removeAuxEntries blk).syms = ir.syms := rfl
 @[simp] theorem removeCfi_syms (ir : IR) (b : Nat) (c : List CfiDir) (p n : Option Nat) (pc nc : Bool) :
     (ir.removeCfi b c p n pc nc).syms = ir.syms := rfl
